@@ -233,6 +233,7 @@ func checkRequests(res *refResolver, exp expectation, reqs []*pluginpb.CodeGener
 	}
 	gen := map[string]int{}
 	seenDir := map[string]int{}
+	var perReqDirs []map[string]bool
 	for ri, req := range reqs {
 		at := fmt.Sprintf("request %d/%d", ri+1, len(reqs))
 		if req.GetParameter() != exp.param {
@@ -274,17 +275,7 @@ func checkRequests(res *refResolver, exp expectation, reqs []*pluginpb.CodeGener
 				dirsHere[dirOf(p)] = true
 			}
 		}
-		if exp.strategy == "directory" {
-			if len(dirsHere) != 1 {
-				return "directory-split", fmt.Sprintf("%s: target files of %d directories %v in one per-directory request", at, len(dirsHere), protogen.SortedKeys(dirsHere)), stats
-			}
-			for d := range dirsHere {
-				seenDir[d]++
-				if seenDir[d] > 1 {
-					return "directory-split", fmt.Sprintf("directory %s is spread over several requests", d), stats
-				}
-			}
-		}
+		perReqDirs = append(perReqDirs, dirsHere)
 		// source_file_descriptors: the unstripped descriptors of exactly the files to generate
 		if len(req.GetSourceFileDescriptors()) != len(req.GetFileToGenerate()) {
 			return "source-retention:source-file-descriptors-count", fmt.Sprintf("%s: %d source_file_descriptors for %d files to generate", at, len(req.GetSourceFileDescriptors()), len(req.GetFileToGenerate())), stats
@@ -384,6 +375,21 @@ func checkRequests(res *refResolver, exp expectation, reqs []*pluginpb.CodeGener
 			}
 		}
 		return what, fmt.Sprintf("%s: %v are files to generate but were not requested", cfg, extra), stats
+	}
+	// per-directory requests: one directory's target files per request, each directory in one request
+	// (checked after the multiset so that a file generated twice is reported as such)
+	if exp.strategy == "directory" {
+		for ri, dirsHere := range perReqDirs {
+			if len(dirsHere) != 1 {
+				return "directory-split", fmt.Sprintf("request %d/%d: target files of %d directories %v in one per-directory request", ri+1, len(reqs), len(dirsHere), protogen.SortedKeys(dirsHere)), stats
+			}
+			for d := range dirsHere {
+				seenDir[d]++
+				if seenDir[d] > 1 {
+					return "directory-split", fmt.Sprintf("directory %s is spread over several requests", d), stats
+				}
+			}
+		}
 	}
 	// shared imports between per-directory requests
 	if exp.strategy == "directory" && len(reqs) >= 2 {
